@@ -60,6 +60,52 @@ package spec
 //@       && (forall j int :: {sp.Definitions[j]} 0 <= j && j < len(sp.Definitions) ==> (exists a grammar.Terminal :: a in table.terminals.table.dom && sp.Definitions[j] == defsOf(table, a)[0]))
 //@       && (forall a grammar.Terminal :: {a in table.terminals.table.dom} a in table.terminals.table.dom ==> (exists j int :: 0 <= j && j < len(sp.Definitions) && sp.Definitions[j] == defsOf(table, a)[0])))
 
+// ---- C01: the plain grammar derived from the extended operators (productions 20-31) ----
+// A value of rhs is a list of alternatives (Strings). inP(t, g, β) (defined below): production g -> β has been entered into the table.
+//@   ensures @c31-terminal-singleton i == 31 && result1 == nil ==> (let r = unbox(result0, "Strings") in len(r) == 1 && len(r[0]) == 1 && r[0][0] == box(unbox(rhs[0].Val, "grammar.Terminal")))
+//@   ensures @c30-nonterminal-singleton i == 30 && result1 == nil ==> (let r = unbox(result0, "Strings") in len(r) == 1 && len(r[0]) == 1 && r[0][0] == box(unbox(rhs[0].Val, "grammar.NonTerminal")))
+//@   ensures @c29-trailing-bar-adds-empty i == 29 && result1 == nil ==> (let r = unbox(result0, "Strings") in let s = unbox(rhs[0].Val, "Strings") in
+//@       len(r) == len(s) + 1 && r[len(s)] == grammar.E && (forall j int :: {r[j]} 0 <= j && j < len(s) ==> r[j] == s[j]))
+//@   ensures @c28-alternation-is-union i == 28 && result1 == nil ==> (let r = unbox(result0, "Strings") in let s1 = unbox(rhs[0].Val, "Strings") in let s2 = unbox(rhs[2].Val, "Strings") in
+//@       len(r) == len(s1) + len(s2) && (forall j int :: {r[j]} 0 <= j && j < len(s1) ==> r[j] == s1[j]) && (forall k int :: {r[k]} len(s1) <= k && k < len(r) ==> r[k] == s2[k - len(s1)]))
+// concatenation: exactly the pairwise concatenations α·β, α from the left operand, β from the right one
+//@   ensures @c23-concat-sound i == 23 && result1 == nil ==> (let r = unbox(result0, "Strings") in let s1 = unbox(rhs[0].Val, "Strings") in let s2 = unbox(rhs[1].Val, "Strings") in
+//@       forall k int :: {r[k]} 0 <= k && k < len(r) ==> (exists a int, b int :: 0 <= a && a < len(s1) && 0 <= b && b < len(s2) && r[k] == strCat(s1[a], s2[b])))
+//@   ensures @c23-concat-complete i == 23 && result1 == nil ==> (let r = unbox(result0, "Strings") in let s1 = unbox(rhs[0].Val, "Strings") in let s2 = unbox(rhs[1].Val, "Strings") in
+//@       forall a int, b int :: {strCat(s1[a], s2[b])} 0 <= a && a < len(s1) && 0 <= b && b < len(s2) ==> (exists k int :: {r[k]} 0 <= k && k < len(r) && r[k] == strCat(s1[a], s2[b])))
+//@   loop[4] invariant forall k int :: {all[k]} 0 <= k && k < len(all) ==> (exists a int, b int :: 0 <= a && a < __i4 && 0 <= b && b < len(s2) && all[k] == strCat(s1[a], s2[b]))
+//@   loop[4] invariant forall a int, b int :: {strCat(s1[a], s2[b])} 0 <= a && a < __i4 && 0 <= b && b < len(s2) ==> (exists k int :: {all[k]} 0 <= k && k < len(all) && all[k] == strCat(s1[a], s2[b]))
+//@   loop[5] invariant len(all) == len(before(all)) + __i5 && (forall k int :: {all[k]} {before(all)[k]} 0 <= k && k < len(before(all)) ==> all[k] == before(all)[k])
+//@   loop[5] invariant forall k int :: {all[k]} len(before(all)) <= k && k < len(all) ==> all[k] == strCat(α, s2[k - len(before(all))])
+//@   loop[5] invariant forall b int :: {s2[b]} 0 <= b && b < __i5 ==> all[len(before(all)) + b] == strCat(α, s2[b])
+// ( ) [ ] { } {{ }}: the value is the single fresh-or-reused non-terminal g, and g's productions are the operator's schema:
+//   group: g -> α     opt: g -> α | ε     star: g -> g α | ε     plus: g -> g α | α        (for every alternative α)
+//@   ensures @c24-27-value-is-one-nonterminal (i == 24 || i == 25 || i == 26 || i == 27) && result1 == nil ==> (let r = unbox(result0, "Strings") in
+//@       len(r) == 1 && len(r[0]) == 1 && typeis(r[0][0], "grammar.NonTerminal") && unbox(r[0][0], "grammar.NonTerminal") != "")
+//@   ensures @c24-group-schema i == 24 && result1 == nil ==> (let g = unbox(unbox(result0, "Strings")[0][0], "grammar.NonTerminal") in let s = unbox(rhs[1].Val, "Strings") in
+//@       forall k int :: {s[k]} 0 <= k && k < len(s) ==> inP(table, g, s[k]))
+//@   ensures @c25-opt-schema i == 25 && result1 == nil ==> (let g = unbox(unbox(result0, "Strings")[0][0], "grammar.NonTerminal") in let s = unbox(rhs[1].Val, "Strings") in
+//@       inP(table, g, grammar.E) && (forall k int :: {s[k]} 0 <= k && k < len(s) ==> inP(table, g, s[k])))
+//@   ensures @c26-star-schema i == 26 && result1 == nil ==> (let g = unbox(unbox(result0, "Strings")[0][0], "grammar.NonTerminal") in let s = unbox(rhs[1].Val, "Strings") in
+//@       inP(table, g, grammar.E) && (forall k int :: {s[k]} 0 <= k && k < len(s) ==> inP(table, g, strPre(s[k], box(g)))))
+//@   ensures @c27-plus-schema i == 27 && result1 == nil ==> (let g = unbox(unbox(result0, "Strings")[0][0], "grammar.NonTerminal") in let s = unbox(rhs[1].Val, "Strings") in
+//@       forall k int :: {s[k]} 0 <= k && k < len(s) ==> inP(table, g, strPre(s[k], box(g))) && inP(table, g, s[k]))
+//@   loop[0] invariant plus != "" && (forall k int :: {s[k]} 0 <= k && k < __i0 ==> inP(table, plus, strPre(s[k], box(plus))))
+//@   loop[0] invariant forall k int :: {s[k]} 0 <= k && k < __i0 ==> inP(table, plus, s[k])
+//@   loop[1] invariant star != "" && (forall k int :: {s[k]} 0 <= k && k < __i1 ==> inP(table, star, strPre(s[k], box(star))))
+//@   loop[2] invariant opt != "" && (forall k int :: {s[k]} 0 <= k && k < __i2 ==> inP(table, opt, s[k]))
+//@   loop[3] invariant group != "" && (forall k int :: {s[k]} 0 <= k && k < __i3 ==> inP(table, group, s[k]))
+// nothing but schema productions is entered (the ⊆ direction): one obligation at every AddProduction call
+//@   callsite AddProduction#6 requires @plus-recursive arg0.Head == plus && arg0.Body == strPre(α, box(plus))
+//@   callsite AddProduction#7 requires @plus-base arg0.Head == plus && arg0.Body == α
+//@   callsite AddProduction#11 requires @star-recursive arg0.Head == star && arg0.Body == strPre(α, box(star))
+//@   callsite AddProduction#12 requires @star-empty arg0.Head == star && arg0.Body == grammar.E
+//@   callsite AddProduction#15 requires @opt-alternative arg0.Head == opt && arg0.Body == α
+//@   callsite AddProduction#16 requires @opt-empty arg0.Head == opt && arg0.Body == grammar.E
+//@   callsite AddProduction#19 requires @group-alternative arg0.Head == group && arg0.Body == α
+//@   callsite AddProduction#21 requires @empty-rule arg0.Head == unbox(rhs[0].Val, "grammar.NonTerminal") && arg0.Body == grammar.E
+//@   callsite AddProduction#22 requires @rule-alternative arg0.Head == head && arg0.Body == α
+
 // ---- C12: precedence directives (productions 12-19) ----
 //@   ensures @c19-passes-rule i == 19 && result1 == nil ==> result0 == rhs[1].Val
 //@   ensures @c17-terminal-handle i == 17 && result1 == nil ==> (let r = unbox(result0, "[]*lr.PrecedenceHandle") in
@@ -197,9 +243,12 @@ package spec
 
 // ---- synthesised non-terminals for ( ) [ ] { } {{ }} ----
 
+// fresh-name: a name is synthesised only when (s, operator) has none yet, so it must not already denote another
+// non-terminal (a user rule, or the helper of another list of strings / another operator).
 //@ func (t *SymbolTable) mapStringToNoneTerminal(s Strings, suffix string) grammar.NonTerminal
 //@   requires tableOK(t)
 //@   ensures @named result != ""
+//@   ensures @fresh-name !(result in t.nonTerminals.table.dom)
 //@   modifies t.strings
 //@   ensures tableOK(t) && sameTables(t)
 
@@ -321,6 +370,9 @@ package spec
 // ---- lists of alternatives as sets of grammar strings (C01) ----
 // has(s, α): α occurs in s (up to String.Equal); sameSet(a, b): the two lists denote the same set of strings.
 //@ spec func has(s Strings, α grammar.String[grammar.Symbol]) bool = exists k int :: 0 <= k && k < len(s) && strEq(s[k], α)
+// inP(t, g, β): production g -> β has been entered into the table.
+//@ spec func inP(t *SymbolTable, g grammar.NonTerminal, β grammar.String[grammar.Symbol]) bool =
+//@   exists p *grammar.Production :: p != nil && allocated(p) && p in t.productions.table.dom && p.Head == g && p.Body == β
 //@ spec func subSet(a Strings, b Strings) bool = forall k int :: {a[k]} 0 <= k && k < len(a) ==> has(b, a[k])
 
 //@ func (s Strings) Contains(α grammar.String[grammar.Symbol]) bool
